@@ -36,14 +36,16 @@ P['C14'] = dict(
 
 P['C13'] = dict(
   design_ref='DESIGN.md section 3 C13',
-  level_text='For every instance inside the bounds the solver shows on the real TransportationProblem / successive-shortest-path code: solve() returns without throwing, allocations are non-negative, every source is fully allocated, no sink exceeds its capacity, and the total cost is minimal against an arbitrary symbolic competitor plan; toAssignment gives each source a sink receiving most of it; also after increaseCapacity. Family A: costs symbolic in the documented fixed-point range, quantities enumerated; family B: quantities symbolic, costs enumerated.',
-  text=dict(bounds=dict(quick='family A: <=2 sources x <=2 sinks, capacities/demands enumerated 1..2, integer costs symbolic in [0, INT_MAX/4/sinks]; family B: 2x2, costs enumerated 0..2, quantities symbolic 1..6 (the number of solver paths grows with the quantity range: the algorithm is pseudo-polynomial)',
-                        thorough='family A: <=3 sources x <=3 sinks, quantities 1..2; family B: 2x2 quantities symbolic 1..16, 3x2 quantities 1..6 costs 0..1'),
-            outside='more than 3 sources or sinks (the property quantifies up to 16 sinks); float cost constructor (scaling kernel only, see C07); quantities above the enumerated range in family A'),
+  level_text='For every instance inside the bounds the solver shows on the real TransportationProblem / successive-shortest-path code: solve() returns without throwing, allocations are non-negative, every source is fully allocated, no sink exceeds its capacity, and the total cost is minimal against an arbitrary symbolic competitor plan; toAssignment gives each source a sink receiving most of it; also after increaseCapacity. Family A: costs symbolic in the documented fixed-point range, quantities enumerated; family B: quantities symbolic, costs enumerated. Inductive argument for larger instances (T, S): from an ARBITRARY optimal intermediate state of the solver with 3 sinks (symbolic costs, any sources present in the full sinks, optimality given by symbolic sink potentials) updateTree() yields the true shortest move-chain costs with parents realising them (Bellman conditions), and one sendSource(src, bestSink(src), q) of a new source keeps the books (allocations, remaining capacities) and leaves a tree that satisfies the same conditions for the NEW state, whether or not the code recomputed it - the shortest-chain invariant on which the minimality of successive shortest paths rests is inductive.',
+  text=dict(bounds=dict(quick='family A: <=2 sources x <=2 sinks, capacities/demands enumerated 1..2, integer costs symbolic in [0, INT_MAX/4/sinks]; family B: 2x2, costs enumerated 0..2, quantities symbolic 1..6 (the number of solver paths grows with the quantity range: the algorithm is pseudo-polynomial); T: 3 sinks (1 or 2 full), 2 sources each present or not in each sink, costs symbolic; S: 3 sinks of which 2 full, 2 sources present or not in each full sink + 1 new source of demand 1..2, free capacities 1..2',
+                        thorough='family A: <=3 sources x <=3 sinks, quantities 1..2; family B: 2x2 quantities symbolic 1..16, 3x2 quantities 1..6 costs 0..1; T: 3 sources; S: also 1 full sink'),
+            outside='end-to-end optimality for more than 3 sources or sinks (the property quantifies up to 16 sinks; larger instances are only covered through the 3-sink inductive step, whose extension to more sinks is not checked); float cost constructor (scaling kernel only, see C07); quantities above the enumerated range in family A'),
   assumptions=STD_ASSUME + ['precondition: total demand <= total capacity (possibly after increaseCapacity), positive demands/capacities, costs within [0, INT_MAX/4/nbSinks] as produced by costsFromIntegers', 'competitor plans are integral (sufficient: transportation polytope is integral)'],
   harnesses=[
     dict(name='H13A', src='C13_transport.cpp', covers=['precondition holds', 'end'], defines={'VCAP': 6, 'NS': 2, 'NK': 2, 'QMAX': 2, 'FAMILY_A': None}, cfg=dict(fp='exact'),
          thorough=dict(defines={'NS': 3, 'NK': 3})),
+    dict(name='H13T', src='C13_tree.cpp', covers=['state built', 'end'], defines={'VCAP': 8, 'NSRC': 2}, cfg=dict(fp='exact', time_budget=120), thorough=dict(defines={'NSRC': 3})),
+    dict(name='H13S', src='C13_tree.cpp', covers=['state built', 'sent', 'end'], defines={'VCAP': 8, 'NSRC': 3, 'SENDSTEP': None, 'MINFULL': 2}, cfg=dict(fp='exact', time_budget=150), thorough=dict(defines={'MINFULL': 1})),
     dict(name='H13B', src='C13_transport.cpp', covers=['precondition holds', 'end'], defines={'VCAP': 6, 'NS': 2, 'NK': 2, 'CRANGE': 3, 'QLIM': 6, 'FAMILY_B': None}, cfg=dict(fp='exact', merge=False),
          thorough=dict(defines={'QLIM': 16})),
     dict(name='H13B3', src='C13_transport.cpp', tiers=('thorough',), covers=['precondition holds', 'end'], defines={'VCAP': 6, 'NS': 3, 'NK': 2, 'CRANGE': 2, 'QLIM': 6, 'FAMILY_B': None}, cfg=dict(fp='exact', merge=False)),
@@ -180,6 +182,7 @@ P['C11'] = dict(
             outside='multi-row cells (excluded by the property); more than 3 cells; coordinates beyond 2^20 (float key no longer exact)'),
   assumptions=STD_ASSUME + ['float arithmetic of the ordering key over-approximated by the linear error model (sound for proofs)'],
   harnesses=[
+    dict(name='H11C', src='C11_idempotent.cpp', covers=['end'], defines={'VCAP': 6, 'H11C': None, 'PSETS': 7}, cfg=dict(fp='real', query_timeout_ms=60000, time_budget=120), diff_samples=0, ir_srcs=ALL_IR, native_srcs=ALL_IR, native_flags=['-llemon']),
     dict(name='H11A', src='C11_idempotent.cpp', covers=['end'], defines={'VCAP': 4, 'H11A': None, 'PSETS': 8}, cfg=dict(fp='real', query_timeout_ms=60000), diff_samples=0, ir_srcs=ALL_IR, native_srcs=ALL_IR, native_flags=['-llemon']),
     dict(name='H11B', src='C11_idempotent.cpp', covers=['end'], defines={'VCAP': 8, 'H11B': None, 'NC': 2}, cfg=dict(fp='havoc'), split=2, ir_srcs=ALL_IR, native_srcs=ALL_IR, native_flags=['-llemon'],
          thorough=dict(defines={'NC': 3}, cfg=dict(time_budget=900))),
@@ -250,13 +253,14 @@ P['C06'] = dict(
 
 P['C07'] = dict(
   design_ref='DESIGN.md section 3 C07',
-  level_text='Every harness of every property runs with clang UBSan traps (signed overflow, division by zero, shifts, array bounds, float-to-int range, invalid bool/enum, missing return, unreachable), container contracts (index, empty access, iterator range) and the repository assert()s as verification conditions. This check aggregates dedicated runs: magnitude kernels at the full supported range (bin subdivision of areas up to 2^23 wide into up to 1200 bins, wirelength/area accumulation at |v|<=2^22, single-row legalizer cost arithmetic with widths and displacements up to 2^20) and the end-to-end entry points (legalize, placeDetailed, placeGlobal) in assert-enabled AND -DNDEBUG builds. Every explored path also terminated within the step budget.',
+  level_text='Every harness of every property runs with clang UBSan traps (signed overflow, division by zero, shifts, array bounds, float-to-int range, invalid bool/enum, missing return, unreachable), container contracts (index, empty access, iterator range) and the repository assert()s as verification conditions. This check aggregates dedicated runs: magnitude kernels at the full supported range (bin subdivision of areas up to 2^23 wide into up to 1200 bins, wirelength/area accumulation at |v|<=2^22, single-row legalizer cost arithmetic with widths and displacements up to 2^20, the transportation kernels of the rough legalizer - capacity normalisation and successive shortest paths - with symbolic costs in the documented fixed-point range) and the end-to-end entry points (legalize, placeDetailed, placeGlobal) in assert-enabled AND -DNDEBUG builds. Every explored path also terminated within the step budget.',
   text=dict(bounds=dict(quick='kernels: symbolic full-range operands; end to end: the tiny circuits of C01/C10/C03 in both assert modes', thorough='same with the thorough bounds of those harnesses'),
             outside='termination beyond the explored paths (no ranking functions are proved); float scaling kernels of the rough legalizer (1e8/width); larger circuits'),
   assumptions=STD_ASSUME + [BOOST_ASSUME, EIGEN_ASSUME, LEMON_ASSUME],
   harnesses=[
     dict(name='H07S', src='C07_kernels.cpp', covers=['end'], defines={'VCAP': 1202, 'H07S': None}, cfg=dict(fp='havoc', max_steps=20000000), ir_srcs=ALL_IR, native_srcs=ALL_IR, native_flags=['-llemon']),
     dict(name='H07W', src='C07_kernels.cpp', covers=['end'], defines={'VCAP': 6, 'H07W': None}, cfg=dict(fp='havoc'), ir_srcs=ALL_IR, native_srcs=ALL_IR, native_flags=['-llemon']),
+    dict(name='H07T', src='C13_transport.cpp', covers=['precondition holds', 'end'], defines={'VCAP': 6, 'NS': 2, 'NK': 2, 'QMAX': 2, 'FAMILY_A': None}, cfg=dict(fp='exact')),
     dict(name='H07R', src='C11_idempotent.cpp', covers=['end'], defines={'VCAP': 8, 'H11B': None, 'NC': 2}, cfg=dict(fp='havoc'), split=2, ir_srcs=ALL_IR, native_srcs=ALL_IR, native_flags=['-llemon']),
     dict(name='H07D', src='C10_busy.cpp', covers=['placement call ended', 'end'], defines={'VCAP': 8, 'NDEBUG': None}, cfg=dict(fp='havoc'), ir_srcs=ALL_IR, native_srcs=ALL_IR, native_flags=['-llemon']),
     dict(name='H07G', src='C03_global.cpp', covers=['placeGlobal ended', 'end'], defines={'VCAP': 24, 'MAXSTEPS': 1, 'NDEBUG': None}, cfg=dict(fp='havoc', time_budget=40), split=4, ir_srcs=ALL_IR, native_srcs=ALL_IR, native_flags=['-llemon']),
